@@ -656,5 +656,11 @@ class Model(object):
                 if n.x is not None:
                     for m in walk(n.x):
                         idx[id(m)] = n.id
+            # statements that were split on a `?:` with effects: the original spine nodes stand for their first copy
+            for oid, copies in getattr(g, 'lowered', {}).items():
+                for c in copies:
+                    if id(c) in idx:
+                        idx.setdefault(oid, idx[id(c)])
+                        break
             g._xindex = idx
         return idx.get(id(x))
